@@ -21,7 +21,7 @@ structure Same (s s' : BSt) : Prop where
   pop : s'.popLog = s.popLog
 
 theorem ThEq.trans {a b c : Th} (h1 : ThEq a b) (h2 : ThEq b c) : ThEq a c :=
-  ⟨h2.buf.trans h1.buf, h2.q.trans h1.q, h2.acc.trans h1.acc, h2.wpos.trans h1.wpos, h2.wh.trans h1.wh, h2.rpos.trans h1.rpos⟩
+  ⟨h2.buf.trans h1.buf, h2.q.trans h1.q, h2.acc.trans h1.acc, h2.wpos.trans h1.wpos, h2.wh.trans h1.wh, h2.rpos.trans h1.rpos, h2.valid.trans h1.valid⟩
 
 theorem Same.refl (s : BSt) : Same s s := ⟨rfl, rfl, fun _ => ThEq.refl _, rfl, rfl, rfl, rfl, fun _ => rfl, rfl⟩
 
@@ -276,27 +276,49 @@ theorem PIo.checkFailures {inj : BSt → Nat → BSt} (hi : InjOK inj) (h : PIo 
   simp only
   split
   · apply hi.pio
-    exact (hb.same (Same.setTh _ i _ ⟨rfl, rfl, rfl, rfl, rfl, rfl⟩)).frame rfl
+    exact (hb.same (Same.setTh _ i _ ⟨rfl, rfl, rfl, rfl, rfl, rfl, rfl⟩)).frame rfl
   · exact hb
 
-theorem findFirst_spec (s : BSt) (l : List Nat) : Same s (cleanupContexts.go.findFirst s l).1 := by
+theorem findFirst_spec (s : BSt) (l : List Nat) (hq : ∀ i, QC (s.th i)) :
+    Same s (cleanupContexts.go.findFirst s l).1 ∧
+    ∀ i, (cleanupContexts.go.findFirst s l).2 = some i →
+      ((cleanupContexts.go.findFirst s l).1.th i).valid = false ∧ chain ((cleanupContexts.go.findFirst s l).1.th i) = [] := by
   induction l generalizing s with
-  | nil => exact Same.refl _
+  | nil => exact ⟨Same.refl _, fun i h => by cases h⟩
   | cons x xs ih =>
     unfold cleanupContexts.go.findFirst
     split
-    · exact ih s
-    · simp only
+    · exact ih s hq
+    · rename_i hv
+      simp only
       split
-      · exact same_ctxEmpty s x
-      · exact (same_ctxEmpty s x).trans (ih _)
+      · rename_i h2
+        refine ⟨same_ctxEmpty s x, fun i hi => ?_⟩
+        cases hi
+        have e := (same_ctxEmpty s x).th x
+        simp only [Bool.and_eq_true] at h2
+        obtain ⟨b1, b2⟩ := ctxEmpty_true (hq x) h2.1
+        refine ⟨by rw [e.valid]; simpa using hv, ?_⟩
+        rw [e.chain]; simp [chain, b1, b2]
+      · have hs := same_ctxEmpty s x
+        obtain ⟨i1, i2⟩ := ih (ctxEmpty s x).1 (fun i => (hs.th i).qc (hq i))
+        exact ⟨hs.trans i1, i2⟩
 
 /-- an invalidated, drained context leaves the registry and the cache -/
-theorem PIo.remove (h : PIo fl s) (i : Nat) (n : Nat) :
+theorem PIo.remove (h : PIo fl s) (i : Nat) (hv : (s.th i).valid = false) (hc : chain (s.th i) = []) (n : Nat) :
     PIo fl { s with registry := s.registry.filter (· ≠ i), cache := s.cache.filter (· ≠ i), invalidCnt := n } := by
   unfold PIo at *
   exact { h with
     cacheEq := rfl
+    reg := fun j hj => by
+      refine List.mem_filter.mpr ⟨h.reg j hj, ?_⟩
+      simp only [ne_eq, decide_not, Bool.not_eq_eq_eq_not, Bool.not_true, decide_eq_false_iff_not]
+      intro hji; rw [hji] at hj; exact hj hc
+    ctxReg := fun a x j hx hj => by
+      obtain ⟨r1, r2⟩ := h.ctxReg a x j hx hj
+      refine ⟨List.mem_filter.mpr ⟨r1, ?_⟩, r2⟩
+      simp only [ne_eq, decide_not, Bool.not_eq_eq_eq_not, Bool.not_true, decide_eq_false_iff_not]
+      intro hji; rw [hji, hv] at r2; cases r2
     bufCache := fun j hjr hj => by
       obtain ⟨h1, h2⟩ := List.mem_filter.mp hjr
       exact List.mem_filter.mpr ⟨h.bufCache j h1 hj, h2⟩
@@ -318,16 +340,16 @@ theorem PIo.cleanupGo (fuel : Nat) (s : BSt) (h : PIo fl s) : PIo fl (cleanupCon
   | zero => exact h
   | succ n ih =>
     unfold cleanupContexts.go
-    have f1 := findFirst_spec s s.cache
+    obtain ⟨f1, f2⟩ := findFirst_spec s s.cache h.qc
     split
     · rename_i s1 heq
       rw [heq] at f1; exact h.same f1
     · rename_i s1 i heq
-      rw [heq] at f1
+      rw [heq] at f1 f2
       apply ih
       have h1 : PIo fl s1 := h.same f1
-      have h2 := h1.remove i (counterMod s1.cfg (s1.invalidCnt + 2 ^ s1.cfg.invalidBits - 1))
-      exact h2.same (Same.setTh _ i _ ⟨rfl, rfl, rfl, rfl, rfl, rfl⟩)
+      have h2 := h1.remove i (f2 i rfl).1 (f2 i rfl).2 (counterMod s1.cfg (s1.invalidCnt + 2 ^ s1.cfg.invalidBits - 1))
+      exact h2.same (Same.setTh _ i _ ⟨rfl, rfl, rfl, rfl, rfl, rfl, rfl⟩)
 
 theorem PIo.cleanupContexts (h : PIo fl s) : PIo fl (cleanupContexts s) := by
   unfold Backend.cleanupContexts
